@@ -334,7 +334,7 @@ def summary_is_max(eff, cell, payload):
     return None
 
 
-FMT = re.compile(r"%([-+ #0]*)(\d+)?(?:\.(\d+))?(hh|h|ll|l|L|j|z|t)?([a-zA-Z])")
+FMT = re.compile(r"%([-+ #0]*)(\d+|\*)?(?:\.(\d+|\*))?(hh|h|ll|l|L|j|z|t)?([a-zA-Z])")
 
 
 def check_formats(chk, v):
@@ -351,22 +351,38 @@ def check_formats(chk, v):
         fmts = []
         for n in walk(f.d.get("body")):
             if n.get("k") == "call" and n.get("callee") in ("sprintf", "snprintf", "std::sprintf", "std::snprintf"):
-                for a in n["args"]:
+                for ai, a in enumerate(n["args"]):
                     if isinstance(a, dict) and a.get("k") == "str":
-                        fmts.append((a["v"], n["l"]))
+                        fmts.append((a["v"], n["l"], n["args"][ai + 1:]))
         chk.count("R3.format_sites", len(fmts))
         if not fmts:
             chk.assumed("R3", "%s::%s uses a recognised formatter" % (f.record, f.name), where=f.where,
                         detail="no sprintf with a literal format found", variant=vn)
             continue
-        for fmt, line in fmts:
+        for fmt, line, rest in fmts:
             m = FMT.search(fmt)
             where = "%s:%s" % (f.file, line)
             key = "%s::%s format round-trips every value" % (f.record, f.name)
             if not m:
                 chk.assumed("R3", key, where=where, detail="format %r not parsed" % fmt, variant=vn)
                 continue
-            prec = int(m.group(3)) if m.group(3) is not None else None
+            # '*' takes the width / precision from the arguments that follow the format, in order
+            stars = [g for g in (m.group(2), m.group(3)) if g == "*"]
+            star_vals = []
+            for k_ in range(len(stars)):
+                a_ = rest[k_] if k_ < len(rest) else None
+                while isinstance(a_, dict) and a_.get("k") == "cast" and a_.get("cv") is None:
+                    a_ = a_.get("e") or a_.get("a")
+                cv = a_.get("cv", a_.get("v") if a_.get("k") == "int" else None) if isinstance(a_, dict) else None
+                star_vals.append(int(cv) if cv is not None and str(cv).lstrip("-").isdigit() else None)
+            if m.group(3) == "*":
+                prec = star_vals[-1]
+                if prec is None:
+                    chk.assumed("R3", key, where=where, detail="format %r takes its precision from a run-time argument" % fmt, variant=vn)
+                    continue
+                fmt = fmt.replace(".*", ".%d" % prec) + " (precision argument = %d)" % prec
+            else:
+                prec = int(m.group(3)) if m.group(3) is not None else None
             conv = m.group(5)
             if kind == "double":
                 if conv in "aA":
